@@ -216,6 +216,69 @@ fn main() {
         let r: Result<StackByteArray<32>, _> = ks.derive_subkey(id);
         o.emit_res(&format!("kdf_obj:stack/{}", id), r.map(|v| v.as_slice().to_vec()).map_err(|e| e.to_string()));
     }
+    // ------------------------------------------------ special peer encodings: low-order points, their neighbours, the
+    // ------------------------------------------------ same with bit 255 set. Decisions (Ok / Err) are outputs too.
+    {
+        let mut specials: Vec<[u8; 32]> = Vec::new();
+        let p_: [u8; 32] = {
+            let mut p = [0xffu8; 32];
+            p[0] = 0xed;
+            p[31] = 0x7f;
+            p
+        };
+        let mut e0 = [0u8; 32];
+        e0.copy_from_slice(&[0xe0, 0xeb, 0x7a, 0x7c, 0x3b, 0x41, 0xb8, 0xae, 0x16, 0x56, 0xe3, 0xfa, 0xf1, 0x9f, 0xc4, 0x6a, 0xda, 0x09, 0x8d, 0xeb, 0x9c, 0x32, 0xb1, 0xfd, 0x86, 0x62, 0x05, 0x16, 0x5f, 0x49, 0xb8, 0x00]);
+        let mut f5 = [0u8; 32];
+        f5.copy_from_slice(&[0x5f, 0x9c, 0x95, 0xbc, 0xa3, 0x50, 0x8c, 0x24, 0xb1, 0xd0, 0xb1, 0x55, 0x9c, 0x83, 0xef, 0x5b, 0x04, 0x44, 0x5c, 0xc4, 0x58, 0x1c, 0x8e, 0x86, 0xd8, 0x22, 0x4e, 0xdd, 0xd0, 0x9f, 0x11, 0x57]);
+        let add = |base: &[u8; 32], d: i32| -> [u8; 32] {
+            let mut v = *base;
+            let mut carry = d;
+            for b in v.iter_mut() {
+                let t = *b as i32 + carry;
+                *b = t.rem_euclid(256) as u8;
+                carry = t.div_euclid(256);
+                if carry == 0 {
+                    break;
+                }
+            }
+            v
+        };
+        for base in [[0u8; 32], e0, f5, p_] {
+            for d in [-1i32, 0, 1, 2] {
+                let v = add(&base, d);
+                specials.push(v);
+                let mut h = v;
+                h[31] |= 0x80;
+                specials.push(h);
+            }
+        }
+        let mut r = Rng::new(55, 1);
+        let (mypk, mysk) = crypto_box_seed_keypair(&r.bytes(32));
+        for (i, peer) in specials.iter().enumerate() {
+            if !o.mine() {
+                continue;
+            }
+            let mut q = [0u8; 32];
+            crypto_scalarmult(&mut q, &mysk, peer);
+            o.emit(&format!("x25519:special/{}", i), &q);
+            let (mut rx, mut tx) = ([0u8; 32], [0u8; 32]);
+            let kc = crypto_kx_client_session_keys(&mut rx, &mut tx, &mypk, &mysk, peer).map(|_| [rx, tx].concat()).map_err(|e| e.to_string());
+            o.emit_res(&format!("kx:special:client/{}", i), kc);
+            let (mut rx, mut tx) = ([0u8; 32], [0u8; 32]);
+            let ks = crypto_kx_server_session_keys(&mut rx, &mut tx, &mypk, &mysk, peer).map(|_| [rx, tx].concat()).map_err(|e| e.to_string());
+            o.emit_res(&format!("kx:special:server/{}", i), ks);
+            let kp: dryoc::keypair::KeyPair<StackByteArray<32>, StackByteArray<32>> = dryoc::keypair::KeyPair::from_slices(&mypk, &mysk).unwrap();
+            let peer_s = StackByteArray::<32>::from(*peer);
+            let oc = dryoc::kx::Session::<StackByteArray<32>>::new_client(&kp, &peer_s).map(|s| [s.rx_as_slice(), s.tx_as_slice()].concat()).map_err(|e| e.to_string());
+            o.emit_res(&format!("kx_obj:special:client/{}", i), oc);
+            let os = dryoc::kx::Session::<Vec<u8>>::new_server(&kp, &peer_s).map(|s| [s.rx_as_slice(), s.tx_as_slice()].concat()).map_err(|e| e.to_string());
+            o.emit_res(&format!("kx_obj:special:server/{}", i), os);
+            let nonce = [7u8; 24];
+            let mut c = vec![0u8; 5 + 16];
+            let br = crypto_box_easy(&mut c, b"hello", &nonce, peer, &mysk).map(|_| c).map_err(|e| e.to_string());
+            o.emit_res(&format!("box:special/{}", i), br);
+        }
+    }
     // ------------------------------------------------ X25519, kx, box, sealed-box nonce, signatures
     let nkeys = if thorough { 3000 } else { 60 };
     for i in 0..nkeys {
